@@ -25,6 +25,8 @@ def alphabet():
         ("rel", "D", "generation", ("A", "g", Q("ex")), (x, ("A", "a", Q("ex")), "t1")),
         ("rel", "B1", "generation", None, (x, None, None)),
         ("at", ("A", "k", Q("ex")), "s_a"),
+        # a second URI under the prefix ex: the document holds a renamed prefix (ex_1)
+        ("el", "D", "entity", ("B", "z", Q("ex"))),
     ]
 
 
@@ -67,6 +69,8 @@ def derive(d):
         d2.add_bundle(d, mm("asbundle"))
         res.append(("add_bundle(document)", "doc", d2, "doc", d))
     res.append(("unified", "doc", d.unified(), "doc", d))
+    for j, b in enumerate(d.bundles):
+        res.append(("bundle[%d].unified" % j, "bundle", b.unified(), "doc", d))
     if d.has_bundles():
         res.append(("flattened", "doc", d.flattened(), "doc", d))
     for fmt in ("json", "xml"):
@@ -85,6 +89,17 @@ def mutations(kind, obj):
         ms.append(("add-attribute", lambda: obj.add_attributes([(mm("k2"), "mut")])))
         ms.append(("add-type", lambda: obj.add_asserted_type(mm("T"))))
         ms.append(("add-value-to-existing-attribute", lambda: _second_value(obj)))
+        return ms
+    if kind == "bundle":
+        b = obj
+        ms.append(("add-record", lambda: b.entity(mm("new"))))
+        # names given as strings: resolved through whatever scope the bundle is linked to
+        ms.append(("add-record-string-ex", lambda: b.entity("ex:strnew")))
+        ms.append(("add-record-bare-string", lambda: b.entity("barenew")))
+        ms.append(("add_namespace", lambda: b.add_namespace("mm", MM)))
+        ms.append(("set_default_namespace", lambda: b.set_default_namespace(MM)))
+        for i, r in enumerate(b.get_records()):
+            ms.append(("add-attribute[%d]" % i, (lambda r=r: r.add_attributes([(mm("k2"), "mut")]))))
         return ms
     doc = obj
     for i, r in enumerate(all_records(doc)):
@@ -114,6 +129,10 @@ def _second_value(rec):
 def obs_of(kind, obj):
     if kind == "rec":
         return observe.robs(obj)
+    if kind == "bundle":
+        ns = obj._namespaces
+        return (tuple(observe.records_obs(obj)), tuple(sorted((n.prefix, n.uri) for n in obj.namespaces)),
+                None if ns.get_default_namespace() is None else ns.get_default_namespace().uri)
     return full_obs(obj)
 
 
@@ -241,14 +260,31 @@ def main(tier, seed):
     depth = {"quick": 4, "thorough": 4}[tier]
     hists = []
     out, stats = explore.bfs(__name__, tier, {}, depth, collect=hists)
+    if tier == "quick":
+        # every state to depth 3, and hand-picked deeper ones (renamed prefix + bundle with own declarations)
+        al = sp.alphabet
+        x, xd = ("A", "x", Q("ex")), ("A", "x", BARE)
+        picks = [
+            [("ns", "D", "ex", "A"), ("el", "D", "entity", x), ("el", "D", "entity", ("B", "z", Q("ex"))), ("at", ("A", "k", Q("ex")), "s_a")],
+            [("ns", "D", "ex", "A"), ("bun", "B1", ("C", "b1", Q("bn"))), ("el", "B1", "entity", x), ("ns", "B1", "ex", "B"),
+             ("rel", "B1", "generation", None, (x, None, None))],
+            [("def", "D", "A"), ("bun", "B1", ("C", "b1", Q("bn"))), ("def", "B1", "B"), ("el", "B1", "entity", ("B", "y", BARE)),
+             ("el", "D", "entity", xd)],
+            [("ns", "D", "ex", "A"), ("el", "D", "entity", ("B", "z", Q("ex"))), ("bun", "B1", ("C", "b1", Q("bn"))),
+             ("el", "B1", "entity", x), ("at", ("A", "k", Q("ex")), "s_a")],
+            [("ns", "D", "ex", "A"), ("el", "D", "entity", x), ("el", "D", "agent", x),
+             ("rel", "D", "generation", ("A", "g", Q("ex")), (x, ("A", "a", Q("ex")), "t1")), ("at", ("A", "k", Q("ex")), "s_a")],
+        ]
+        hists = [h for h in hists if len(h) <= 3] + [tuple(al.index(o) for o in pk) for pk in picks]
     out2 = explore.pmap(__name__, tier, {}, "state_case", hists, chunk=4)
     out.merge(out2)
     out.evaluations -= len(hists)
     out.conform = out.nontrivial
     vs, nsig = runner.violations_json(sp, out)
     cov = runner.coverage_from(out, stats, sp, (
-        "all %d states of a 13-letter alphabet to depth %d x every deriving operation (copy, add_record, constructor, "
-        "update, add_bundle(document), unified, flattened, JSON/XML reload) x every mutation x side%s; a case is "
+        "%d states of a 14-letter alphabet (BFS to depth %d; quick: every state to depth 3 and five hand-picked deeper ones) x "
+        "every deriving operation (copy, add_record into another / the own container, constructor, update, "
+        "add_bundle(document), unified of the document and of each bundle, flattened, JSON/XML reload) x every mutation x side%s; a case is "
         "distinct by (state, derivation, side, mutation[s]); non-trivial = the mutation was applied and the other "
         "side compared" % (len(hists), depth, " x second mutation on the other side" if tier == "thorough" else "")))
     return {"property": "C12", "coverage": cov, "violations": vs, "signatures": nsig,
